@@ -205,12 +205,20 @@ let fsh_case id prefiles ops =
           | [n; c] -> (bytes_of_hex n, bytes_of_hex c) | [n] -> (bytes_of_hex n, []) | _ -> failwith "bad prefile") (split_nonempty ',' prefiles) in
   let opl = Stdlib.List.map (fun o -> match Stdlib.String.split_on_char '.' o with
       | ["w"; p; c; a] -> FsSem.OWrite (bytes_of_hex p, bytes_of_hex c, a = "1")
+      | ["w"; p; c; a; _] -> FsSem.OWrite (bytes_of_hex p, bytes_of_hex c, a = "1")
       | ["r"; p] -> FsSem.ORead (bytes_of_hex p)
+      | ["r"; p; _] -> FsSem.ORead (bytes_of_hex p)
       | ["e"; p] -> FsSem.OExists (bytes_of_hex p)
       | _ -> failwith "bad fs op") (split_nonempty ',' ops) in
   let (fs, outs) = FsSem.run_sh pre opl in
   let buf = Buffer.create 64 in
-  Stdlib.List.iter2 (fun o out -> match o, out with
+  let tags = Stdlib.List.map (fun o -> match Stdlib.String.split_on_char '.' o with ["r"; _; _] -> "rk" | ["w"; _; _; _; _] -> "wk" | _ -> "") (split_nonempty ',' ops) in
+  let tagr = ref tags in
+  Stdlib.List.iter2 (fun o out ->
+      let tg = (match !tagr with t :: r -> tagr := r; t | [] -> "") in
+      match o, out with
+      | FsSem.OWrite _, _ when tg = "wk" -> Buffer.add_string buf "k\n"
+      | FsSem.ORead _, Some v when tg = "rk" -> Buffer.add_string buf (str_of_bytes v ^ " k\n")
       | FsSem.ORead _, Some v -> Buffer.add_string buf ("<" ^ str_of_bytes v ^ ">\n")
       | FsSem.OExists _, Some v -> Buffer.add_string buf (str_of_bytes v ^ "\n")
       | _, _ -> ()) opl outs;
